@@ -115,11 +115,11 @@ PROPS = {
                 rule="FAULT: every (payload shape x armed fault set x clean/dusty state) is one execution with fault wrappers around the real dependencies; FUNDS: naturally occurring failures; non-trivial = a reception in which an armed fault actually fired or the transfer was refused; distinct = distinct (pre-state, input incl. fault set)"),
     "C06": dict(families=["ORDER"], groups=["ack", "actions", "req"], level="model_checking",
                 rule="non-trivial = a packet whose payload carries actions (executed with recording decorators around the fee controller and the swap test controller) or repeats an action id; distinct = distinct (pre-state, input)"),
-    "C14": dict(families=["PARSE"], groups=["ack"], level="exploration",
+    "C14": dict(families=["PARSE", "FUNDS"], groups=["ack"], level="exploration",
                 rule="TLC enumerates the finite grid templates x JSON paths x mutations completely; unstructured classes (random bytes as packet data, random memo bytes, random JSON under the real field names, extreme amounts/denoms/attribute values) are seeded-random representatives; each is one packet through the full app under recover(); non-trivial = every such packet; distinct = distinct abstract input"),
     "C20": dict(families=["IDENT"], groups=["ident"], level="model_checking", exhaustive=True,
                 rule="one evaluation = one (protocol, counterparty string) pair sent through every identifier entry point; the evidence counts steps (batches of all strings per protocol and pre-state); non-trivial = every batch; distinct = distinct (pre-state, protocol)"),
-    "C17": dict(families=["GENESIS", "PAUSE"], groups=["genesis", "pause", "params", "stats"], level="model_checking", props=["C17", "C17b"],
+    "C17": dict(families=["GENESIS", "PAUSE"], groups=["genesis", "pause", "params", "stats"], level="model_checking", props=["C17", "C17b", "C17c"],
                 rule="non-trivial = a genesis document accepted by validation (must initialise), or a re-import step inside a history (export -> validate -> init on a cleared store -> export must be the identity); distinct = distinct (pre-state, input)"),
     "C15": dict(families=["PARSE", "REQ", "FEES"], groups=["parse"], level="model_checking", exhaustive=True,
                 rule="every document of the mutation grid (incl. unknown fields at every level, extra/duplicated root keys, wrong type URLs), of the (protocol id x attribute type x action id) grid and of the fee grid is handed to the real parser twice (acceptance, purity) and, when the public constructors accept the abstract payload, marshalled -> parsed -> compared -> re-marshalled; non-trivial = every such document; distinct = distinct abstract input"),
